@@ -962,13 +962,48 @@ def anyStmt (L : Loc) : Stmt → Bool
   | .showColumns fr wh => anyOE L wh || anyFs L fr
   | _ => false
 
+/-- the partition item printer succeeds / fails exactly like the expression printer on the item (same components, same order) -/
+theorem prPartItem_shape (d : Gen.D) : ∀ e, (∃ a b, prPartItem d e = .ok a ∧ prE d e = .ok b) ∨ (∃ x, prPartItem d e = .error x ∧ prE d e = .error x) := by
+  intro e
+  have gen : ∀ e, (∃ a b, (prE d e).map (wrap e 8) = .ok a ∧ prE d e = .ok b) ∨ (∃ x, (prE d e).map (wrap e 8) = .error x ∧ prE d e = .error x) := by
+    intro e; cases h : prE d e with
+    | ok b => exact .inl ⟨_, b, rfl, rfl⟩
+    | error x => exact .inr ⟨x, rfl, rfl⟩
+  cases e with
+  | compare o l r =>
+    simp only [prPartItem, prE, bind, Except.bind, pure, Except.pure]
+    cases prE d l with
+    | error x => exact .inr ⟨x, rfl, rfl⟩
+    | ok a =>
+      simp only [Except.map]
+      cases compareOpSrc o with
+      | error x => exact .inr ⟨x, rfl, rfl⟩
+      | ok b =>
+        cases prE d r with
+        | error x => exact .inr ⟨x, rfl, rfl⟩
+        | ok c => exact .inl ⟨_, _, rfl, rfl⟩
+  | _ => simpa only [prPartItem] using gen _
+
+theorem bad_Ps {d : Gen.D} {L : Loc} (hL : L.Refused d) : ∀ es, anyEs L es = true → ∀ l, prPartList d es ≠ .ok l
+  | [] => by simp [anyEs]
+  | e :: r => by
+    intro hb l h
+    simp only [prPartList, bind_eq_ok] at h
+    obtain ⟨a, ha, b, hb', -⟩ := h
+    simp only [anyEs, Bool.or_eq_true] at hb
+    rcases hb with hb | hb
+    · rcases prPartItem_shape d e with ⟨_, b', -, hb2⟩ | ⟨x, hx, -⟩
+      · exact bad_E hL e hb b' hb2
+      · rw [hx] at ha; cases ha
+    · exact bad_Ps hL r hb b hb'
+
 theorem bad_OptPartition {d : Gen.D} {L : Loc} (hL : L.Refused d) : ∀ p, anyOEs L p = true → ∀ s, prOptPartition d p ≠ .ok s
   | none => by simp [anyOEs]
   | some p => by
     intro hb s h
     simp only [prOptPartition, prPartition, map_eq_ok] at h
     obtain ⟨_, ⟨x, hx, -⟩, -⟩ := h
-    exact bad_Es hL p (by simpa only [anyOEs] using hb) x hx
+    exact bad_Ps hL p (by simpa only [anyOEs] using hb) x hx
 
 theorem bad_Head {d : Gen.D} {L : Loc} (hL : L.Refused d) (h : InsertHead) (hb : anyHead L h = true) : ∀ s, prInsertHead d h ≠ .ok s := by
   intro s hs
@@ -1005,12 +1040,12 @@ theorem bad_AlterOp {d : Gen.D} {L : Loc} (hL : L.Refused d) : ∀ o, anyAlterOp
     intro hb s h
     simp only [prAlterOp, prPartition, map_eq_ok] at h
     obtain ⟨_, ⟨x, hx, -⟩, -⟩ := h
-    exact bad_Es hL p hb x hx
+    exact bad_Ps hL p hb x hx
   | .dropPartition _ p => by
     intro hb s h
     simp only [prAlterOp, prPartition, map_eq_ok] at h
     obtain ⟨_, ⟨x, hx, -⟩, -⟩ := h
-    exact bad_Es hL p hb x hx
+    exact bad_Ps hL p hb x hx
   | .add _ | .modify _ | .change _ _ | .renameColumn _ _ | .dropColumn _ => by simp [anyAlterOp]
 
 /-- propagation for statements -/
@@ -1431,11 +1466,24 @@ def StmtClean (d : Gen.D) (E : Err → Prop) : Stmt → Prop
   | .alter _ ops => ∀ o ∈ ops, ∀ c, o ≠ .add (.col c) ∧ o ≠ .modify (.col c) ∧ ∀ f, o ≠ .change f (.col c)
   | _ => True
 
+theorem res_Ps {d : Gen.D} {E : Err → Prop} {L : Loc} (hT : L.Clean d E) : ∀ es, anyEs L es = false → OkOr E (prPartList d es)
+  | [] => fun _ => OkOr.pure _
+  | e :: r => fun hb => by
+    simp only [anyEs, Bool.or_eq_false_iff] at hb
+    have i1 : OkOr E (prPartItem d e) := by
+      intro x hx
+      rcases prPartItem_shape d e with ⟨_, _, ha, -⟩ | ⟨y, hy, hy2⟩
+      · rw [ha] at hx; cases hx
+      · rw [hy] at hx; cases hx; exact res_E hT e hb.1 _ hy2
+    have i2 := res_Ps hT r hb.2
+    simp only [prPartList]
+    exact OkOr.bind i1 (fun _ => OkOr.bind i2 (fun _ => OkOr.pure _))
+
 theorem res_OptPartition {d : Gen.D} {E : Err → Prop} {L : Loc} (hT : L.Clean d E) : ∀ p, anyOEs L p = false → OkOr E (prOptPartition d p)
   | none => fun _ => OkOr.pure _
   | some p => fun hb => by
     simp only [prOptPartition, prPartition]
-    exact OkOr.map (OkOr.map (res_Es hT p (by simpa only [anyOEs] using hb)))
+    exact OkOr.map (OkOr.map (res_Ps hT p (by simpa only [anyOEs] using hb)))
 
 theorem res_Head {d : Gen.D} {E : Err → Prop} {L : Loc} (hT : L.Clean d E) (h : InsertHead)
     (hc : h.withs ≠ none ∧ OkOr E (headGuard d h.type) ∧ OkOr E (wordsSrc Gen.insertTypes h.type)) (hb : anyHead L h = false) :
@@ -1464,8 +1512,8 @@ theorem res_Tail {d : Gen.D} {E : Err → Prop} {L : Loc} (hT : L.Clean d E) (wh
 
 theorem res_AlterOp {d : Gen.D} {E : Err → Prop} {L : Loc} (hT : L.Clean d E) : ∀ o,
     (∀ c, o ≠ .add (.col c) ∧ o ≠ .modify (.col c) ∧ ∀ f, o ≠ .change f (.col c)) → anyAlterOp L o = false → OkOr E (prAlterOp d o)
-  | .addPartition _ p, _, hb => by simp only [prAlterOp, prPartition]; exact OkOr.map (OkOr.map (res_Es hT p hb))
-  | .dropPartition _ p, _, hb => by simp only [prAlterOp, prPartition]; exact OkOr.map (OkOr.map (res_Es hT p hb))
+  | .addPartition _ p, _, hb => by simp only [prAlterOp, prPartition]; exact OkOr.map (OkOr.map (res_Ps hT p hb))
+  | .dropPartition _ p, _, hb => by simp only [prAlterOp, prPartition]; exact OkOr.map (OkOr.map (res_Ps hT p hb))
   | .renameColumn _ _, _, _ => OkOr.ok _
   | .dropColumn _, _, _ => OkOr.ok _
   | .add (.col c), hc, _ => ((hc c).1 rfl).elim
